@@ -241,6 +241,7 @@ class World:
         self.at_loop = False
         self.maxdepth = 0
         self.maxrec = (0, None)  # deepest self-recursion of a function of the code under test
+        self.recent = ()         # hashes of the last state keys seen at loop heads on this path (non-termination detector)
         self.tags = {}
         self.idtab = {}
         self.next_lid = 1
